@@ -168,3 +168,16 @@ U(id="C05.delta.io", props=["C05", "C07"], file="filter/delta.rs",
   stubs=ERR + ["io_any source/sink: short reads/writes, Interrupted, error at a chosen call"],
   functions=[("src/filter/delta.rs", "read", "Read for DeltaReader"), ("src/filter/delta.rs", "write", "Write for DeltaWriter")],
   contract="reader: returns the source's count, decodes exactly those bytes, source error passes through with state untouched, zero-length read is a no-op; writer: Ok(n) commits exactly the first n bytes (sink content and filter state), sink error is returned")
+
+U(id="C07.bcj.reader", props=["C07", "C05", "C06", "C11"], file="filter/bcj.rs",
+  harnesses=["c07_bcj_reader_split_1", "c07_bcj_reader_split_5", "c07_bcj_reader_split_9"],
+  kind="bounded", bound="10-byte source (2 groups + 2 tail bytes), ARM filter, first read of 1/5/9 bytes, any bytes, any aligned start < 2^40",
+  functions=[("src/filter/bcj.rs", "read", "Read for BCJReader"), ("src/filter/bcj.rs", "new", "BCJReader"), ("src/filter/bcj.rs", "code", "BCJFilter")],
+  contract="output = decoder filter applied once to the whole stream, for every split of the reads; unconverted tail emitted only at EOF; after EOF reads return Ok(0); zero-length read is a no-op; internal asserts unreachable")
+
+U(id="C07.bcj.writer", props=["C07", "C11"], file="filter/bcj.rs",
+  harnesses=["c07_bcj_writer_single", "c07_bcj_writer_two_aligned_writes"],
+  known_findings=[{"harness": "kf_c07_bcj_writer_two_writes"}],
+  kind="bounded", bound="10/12-byte inputs, ARM filter",
+  functions=[("src/filter/bcj.rs", "write", "Write for BCJWriter")],
+  contract="sink = encoder filter applied to the concatenation of the writes (known finding D17: fails when a write leaves an unconverted tail)")
